@@ -934,3 +934,62 @@ pub fn pinch_set(rng: &mut Rng, n: usize) -> Vec<Vec<(Vec<P>, Vec<Vec<P>>)>> {
         return out;
     }
 }
+
+/// family "holefill": operands nested inside one common outer rectangle and interacting with its
+/// holes. The outer box is cut into 5x5 blocks (so that grown holes of neighbouring blocks stay apart); some blocks carry a hole (1..2 cells wide, at
+/// offset 1 inside the block). Operand shapes: the outer box with all / some / none of the holes;
+/// a set of rectangles that exactly fill, overfill (grown by one cell) or sit inside holes; an
+/// inner rectangle of whole blocks. Unions and intersections of such operands have the same outer
+/// ring as one operand and a sub-list of its holes - results that coincide ring by ring with an
+/// operand when fed back.
+pub fn holefill_set(rng: &mut Rng, n: usize) -> Vec<Vec<(Vec<P>, Vec<Vec<P>>)>> {
+    let (bx, by) = (rng.range(2, 3), rng.range(1, 3));
+    let (w, h) = (5 * bx, 5 * by);
+    let o = (rng.range(-20, 20), rng.range(-20, 20));
+    let mut holes: Vec<(i64, i64, i64, i64)> = vec![];
+    for i in 0..bx {
+        for j in 0..by {
+            if rng.chance(3, 5) {
+                let (hw, hh) = (rng.range(1, 2), rng.range(1, 2));
+                let (x0, y0) = (o.0 + 5 * i + 1, o.1 + 5 * j + 1);
+                holes.push((x0, y0, x0 + hw, y0 + hh));
+            }
+        }
+    }
+    let outer = rect_ring(o.0, o.1, o.0 + w, o.1 + h, true);
+    let hole_ring = |r: &(i64, i64, i64, i64)| rect_ring(r.0, r.1, r.2, r.3, false);
+    let mut out = vec![];
+    for _ in 0..n {
+        let shape = rng.below(8);
+        if shape <= 2 || holes.is_empty() {
+            // the outer box with a random subset of the holes (all with probability 1/2)
+            let all = rng.chance(1, 2);
+            let hs: Vec<Vec<P>> = holes.iter().filter(|_| all || rng.chance(1, 2)).map(hole_ring).collect();
+            out.push(vec![(outer.clone(), hs)]);
+        } else if shape <= 5 {
+            // rectangles in / on / over holes
+            let mut parts = vec![];
+            for r in &holes {
+                match rng.below(4) {
+                    0 => parts.push((rect_ring(r.0, r.1, r.2, r.3, true), vec![])),
+                    1 => parts.push((rect_ring(r.0 - 1, r.1 - 1, r.2 + 1, r.3 + 1, true), vec![])),
+                    2 if r.2 - r.0 == 2 => parts.push((rect_ring(r.0, r.1, r.0 + 1, r.3, true), vec![])),
+                    _ => {}
+                }
+            }
+            if parts.is_empty() {
+                let r = holes[0];
+                parts.push((rect_ring(r.0, r.1, r.2, r.3, true), vec![]));
+            }
+            out.push(parts);
+        } else {
+            // an inner rectangle of whole blocks (with the holes inside it, or without)
+            let (i0, j0) = (rng.range(0, bx - 1), rng.range(0, by - 1));
+            let (i1, j1) = (rng.range(i0 + 1, bx), rng.range(j0 + 1, by));
+            let r = (o.0 + 5 * i0, o.1 + 5 * j0, o.0 + 5 * i1, o.1 + 5 * j1);
+            let inside: Vec<Vec<P>> = holes.iter().filter(|q| q.0 > r.0 && q.2 < r.2 && q.1 > r.1 && q.3 < r.3).filter(|_| rng.chance(1, 2)).map(hole_ring).collect();
+            out.push(vec![(rect_ring(r.0, r.1, r.2, r.3, true), inside)]);
+        }
+    }
+    out
+}
